@@ -267,8 +267,10 @@ def rule_rmw(ms) -> typing.List[dict]:
     k = "const_bitspan::copyTo/2"
     v = View(k, ms[k])
     ln = [p for p, ty in v.params.items() if "bitspan" not in ty][0]
+    # reference locals bound to a byte of the destination (`uint8_t& last_dst = dst.aligned_ref(n);`) are destination lvalues too
+    dst_refs = {name for name, (init, ty, _n) in v.defs.items() if init is not None and "&" in ty and "dst" in cast.term_refs(init)}
     return rmw_core("R-C14-RMW", k, v, {"dst"}, set(), lambda t: t == ("ref", ln), None,
-                    is_dst_lhs=lambda lhs: lhs[0] in ("idx", "mcall") and "dst" in cast.term_refs(lhs))
+                    is_dst_lhs=lambda lhs: (lhs[0] in ("idx", "mcall") and "dst" in cast.term_refs(lhs)) or (lhs[0] == "ref" and lhs[1] in dst_refs))
 
 
 def rule_byte_order(ms, endian) -> typing.List[dict]:
